@@ -139,23 +139,29 @@ func sameRaw(d int, a, b uint64) bool {
 // check judges one output.
 func (r *ctxRunner) check(cs ctxCase, s, d int, in, out uint64, base map[uint64]uint64, where string) bool {
 	r.evals++
+	// (no strings on the path taken by the millions of samples that are fine)
+	kind, msg := "", ""
+	if r.judge != nil {
+		kind, msg = r.judge(s, d, in, out)
+	}
+	b, known := base[in]
+	dependent := r.equal && known && !sameRaw(d, b, out)
+	if kind == "" && !dependent {
+		return false
+	}
 	name := dyn.ConvName(s, d) + "/" + dyn.Types[s].Name + "->" + dyn.Types[d].Name
 	var fs []F
-	if r.judge != nil {
-		if kind, msg := r.judge(s, d, in, out); kind != "" {
-			fs = append(fs, F{Key: name + "/" + kind, Msg: fmt.Sprintf("%s %s: %s", name, where, msg)})
-		}
+	if kind != "" {
+		fs = append(fs, F{Key: name + "/" + kind, Msg: fmt.Sprintf("%s %s: %s", name, where, msg)})
 	}
-	if r.equal {
-		if b, ok := base[in]; ok && !sameRaw(d, b, out) {
-			fs = append(fs, F{Key: name + "/context-dependent", Msg: fmt.Sprintf("%s %s: input %s gives %s, but %s when converted alone: the result depends on more than the sample and the two formats",
-				name, where, ctxShow(s, in), ctxShow(d, out), ctxShow(d, b))})
-		}
+	if dependent {
+		fs = append(fs, F{Key: name + "/context-dependent", Msg: fmt.Sprintf("%s %s: input %s gives %s, but %s when converted alone: the result depends on more than the sample and the two formats",
+			name, where, ctxShow(s, in), ctxShow(d, out), ctxShow(d, b))})
 	}
-	if len(fs) > 0 && r.cap.ok(fs[0].Key) {
+	if r.cap.ok(fs[0].Key) {
 		r.c.Fail(cs, fs...)
 	}
-	return len(fs) > 0
+	return true
 }
 
 // runInst runs the neighbours and outlier passes of one instantiation.
@@ -269,8 +275,19 @@ func (r *ctxRunner) giant(s, d int, lens []int, only *ctxCase) {
 			cs := ctxCase{Prop: r.prop, Pass: "giant", S: tn(s), D: tn(d), Ch: ch, Pos: L}
 			bad := 0
 			for i := range in {
+				want := baseOut[(i+i/len(sp))%len(sp)] // the isolated result of this position's value
+				if !r.equalOnlyTail && bad < 3 && sameRaw(d, want, out[i]) {
+					if r.judge == nil {
+						r.evals++
+						continue
+					}
+					if kind, _ := r.judge(s, d, in[i], out[i]); kind == "" {
+						r.evals++
+						continue
+					}
+				}
 				if r.equalOnlyTail {
-					if b := base[in[i]]; out[i] == garbage && b != garbage {
+					if b := want; out[i] == garbage && b != garbage {
 						r.evals++
 						if bad < 3 && r.cap.ok("unconverted") {
 							name := dyn.ConvName(s, d) + "/" + tn(s) + "->" + tn(d)
@@ -341,16 +358,20 @@ func ctxBaselineCached(s, d int) []uint64 {
 // passes are about state kept between calls), and returns a digest per instantiation of
 // the isolated results, for comparison with a process that used them in the opposite order.
 func ctxRun(c *core.Ctx, prop string, judge ctxJudge, equal bool, filter func(s, d int) bool) map[string]string {
-	r := &ctxRunner{c: c, prop: prop, judge: judge, equal: equal, filter: filter, cap: newFailCap(20)}
+	digests := ctxDigests(filter)
+	ctxPasses(c, prop, judge, equal, filter)
+	return digests
+}
+
+// ctxDigests makes the first use of every admitted instantiation, sequentially and in this process's
+// order (instOrder), and returns a digest per instantiation of the isolated results.  A check
+// calls it before anything else that converts, so that the order of first use is the same in every run.
+func ctxDigests(filter func(s, d int) bool) map[string]string {
 	digests := map[string]string{}
-	var insts [][2]int
 	for _, sd := range instOrder() {
-		if filter(sd[0], sd[1]) {
-			insts = append(insts, sd)
+		if !filter(sd[0], sd[1]) {
+			continue
 		}
-	}
-	// baselines first, in this process's order of use
-	for _, sd := range insts {
 		b := ctxBaselineCached(sd[0], sd[1])
 		h := sha256.New()
 		for _, x := range b {
@@ -369,12 +390,39 @@ func ctxRun(c *core.Ctx, prop string, judge ctxJudge, equal bool, filter func(s,
 		}
 		digests[tn(sd[0])+"->"+tn(sd[1])] = hex.EncodeToString(h.Sum(nil)[:8])
 	}
+	return digests
+}
+
+// ctxPasses runs the neighbour, outlier, tail, adjacency and very-long-buffer passes.
+func ctxPasses(c *core.Ctx, prop string, judge ctxJudge, equal bool, filter func(s, d int) bool) {
+	r := &ctxRunner{c: c, prop: prop, judge: judge, equal: equal, filter: filter, cap: newFailCap(20)}
+	var insts [][2]int
+	for _, sd := range instOrder() {
+		if filter(sd[0], sd[1]) {
+			insts = append(insts, sd)
+		}
+	}
 	for _, sd := range insts {
 		r.runInst(sd[0], sd[1], nil)
 	}
+	// every ordered pair of built-in instantiations back to back; an instantiation with a named element
+	// type next to its built-in twin, the other named spellings of the same pair, and itself
+	base := func(t int) int {
+		if t >= dyn.NB {
+			return (t - dyn.NB) % dyn.NB
+		}
+		return t
+	}
+	named := func(sd [2]int) bool { return sd[0] >= dyn.NB || sd[1] >= dyn.NB }
 	for _, a := range insts {
 		for _, b := range insts {
+			if (named(a) || named(b)) && (base(a[0]) != base(b[0]) || base(a[1]) != base(b[1])) {
+				continue
+			}
 			r.adjacency(a, b)
+			if c.Expired() {
+				break
+			}
 		}
 	}
 	// very long buffers (paths that split or parallelise the work): 2^20+3 samples (thorough: also
@@ -412,7 +460,6 @@ func ctxRun(c *core.Ctx, prop string, judge ctxJudge, equal bool, filter func(s,
 	r.evals += gevals.Load()
 	c.Add("context_pass_evaluations", r.evals)
 	c.Eval(r.evals, 0)
-	return digests
 }
 
 // ctxReplay re-executes one recorded context case.
